@@ -42,3 +42,13 @@ void L_end(void) { printf("\n"); }
 void impl_born(void) { g_impls++; }
 void impl_died(void) { g_impls--; }
 int impls_live(void) { return g_impls; }
+
+/* is this 8-byte word one half of a handle to a counting object (its context pointer, live now,
+   or the shared invoke function)?  Used by the wire spy of main.c: handles never travel inside
+   data buffers. */
+int cobj_is_handle_word(uint64_t w) {
+  if (w == 0) return 0;
+  if (w == (uint64_t)(uintptr_t)cobj_invoke) return 2;
+  for (int i = 0; i < NIDS; i++) if (live_tbl[i] && w == (uint64_t)(uintptr_t)live_tbl[i]) return 1;
+  return 0;
+}
